@@ -370,3 +370,17 @@ func Harness_C01_table_boundary() {
 	}
 	VerifCover("done")
 }
+
+// Harness_C01_table_biglog: a log block larger than one 16 KiB deflate stored block, incompressible, filling the block size to within a few bytes.
+// bounds: BlockSize 20000, one reflog entry whose message is L arbitrary bytes, L swept so that the inflated block size takes every value from 28 bytes below the block size up to the block size (and one step beyond: rejected); all message bytes symbolic and unconstrained (so the stored-block model applies and the native replay uses incompressible data)
+// covers: done, rejected
+func Harness_C01_table_biglog() {
+	cfg := Config{BlockSize: 20000, ExactLogMessage: true, Unaligned: VerifChoose(2) == 1}
+	l := &LogRecord{RefName: "a", UpdateIndex: 1, Time: 5, New: hashWith(20, 1, 1), Old: hashWith(20, 2, 2), Name: "n", Email: "e"}
+	l.Message = symString(19876 + VerifIntRange(0, 32))
+	if !tableRoundTrip(cfg, 1, 1, nil, []*LogRecord{l}) {
+		VerifCover("rejected")
+		return
+	}
+	VerifCover("done")
+}
